@@ -10,6 +10,7 @@ import B2Z.Model.Icf
 import B2Z.Model.Pipeline
 import B2Z.Model.Schema
 import B2Z.Model.ExplodeProto
+import B2Z.Model.IcfDamage
 /-! JSON line-protocol driver: one request object per line in, one JSON value per line out.
     Only `Model.*` (core Lean) is imported, so this also builds as a native executable. -/
 open Lean
@@ -360,6 +361,14 @@ def handle (j : Json) : Except String Json := do
       | .ok x => (intList x).map some
       | .error _ => pure none
     pure (optJson intsJson (Schema.intRow dt w v))
+  | "dmg.read" =>
+    let parts ← (← reqArr j "parts").toList.mapM natList
+    let a ← reqNat j "a"; let b ← reqNat j "b"
+    let (store, _) := parts.foldl (fun (acc : List (B2Z.Part Nat) × Nat) (lens : List Nat) =>
+      let (chunks, n) := lens.foldl (fun (c : List (List Nat) × Nat) (l : Nat) => (c.1 ++ [List.range' c.2 l], c.2 + l)) ([], acc.2)
+      (acc.1 ++ [({ chunks := chunks } : B2Z.Part Nat)], n)) ([], 0)
+    pure (Json.mkObj [("chunks", Json.arr ((Dmg.chunksRead store a b).map fun (p, k) => natsJson [p, k]).toArray),
+                      ("indexes", natsJson (Dmg.indexesRead store a b))])
   | "xp.hist" =>
     let c ← xpCfg j
     let hist ← (← reqArr j "history").toList.mapM xpCmd
